@@ -415,41 +415,7 @@ func runC07(c *Ctx, w *World, r *Report) {
 	ReportCount(w, r, "pbcmpl.Marshal", 0, isParamStream(fns["pbcmpl.Marshal"], 0))
 	ReportCount(w, r, "pbcmpl.ReadHeader", 0, isParamStream(fns["pbcmpl.ReadHeader"], 0))
 	ReportCount(w, r, "pbcmpl.Unmarshal", 0, isParamStream(fns["pbcmpl.Unmarshal"], 0))
-	// write order: header bytes then body bytes (C07: "emitted exactly the first k bytes of the frame")
-	{
-		fname := "pbcmpl.Marshal"
-		fn := fns[fname]
-		r.Rule("R-ORDER", "Marshal writes the header bytes first and the body bytes second, to the same writer, the second write being dominated by the success edge of the first")
-		ios := streamCalls(fn, isParamStream(fn, 0))
-		bad := ""
-		if len(ios) != 2 {
-			bad = fmt.Sprintf("expected two writes (header, body), found %d", len(ios))
-		} else {
-			a0, a1 := ios[0].Call.Common().Args[0], ios[1].Call.Common().Args[0]
-			e0, ok0 := a0.(*ssa.Extract)
-			e1, ok1 := a1.(*ssa.Extract)
-			if !ok0 || !ok1 || e0.Tuple != e1.Tuple {
-				bad = "the two writes do not emit the two results of one marshal() call"
-			} else {
-				first, second := ios[0], ios[1]
-				if !instrDominates(first.Call, second.Call) {
-					first, second = second, first
-					e0, e1 = e1, e0
-				}
-				if e0.Index != 0 || e1.Index != 1 {
-					bad = fmt.Sprintf("write order is result #%d then #%d of marshal(); the frame is header (#0) then body (#1)", e0.Index, e1.Index)
-				}
-				errs := map[ssa.CallInstruction]ssa.Value{}
-				for _, es := range errorCalls(fn) {
-					errs[es.Call] = es.Err
-				}
-				if e := errs[first.Call]; e == nil || nilnessUnder(w.FA(fn).Conds(second.Call.Block()), e) != -1 {
-					bad = "the body is written even if the header write failed"
-				}
-			}
-		}
-		r.Check(bad == "", "R-ORDER", fname, w.Pos(fn.Pos()), bad, "w.Write(header) dominates w.Write(body) on its err==nil edge")
-	}
+	reportWriteOrder(w, r, fns["pbcmpl.Marshal"])
 	_ = types.Typ
 }
 
@@ -497,4 +463,91 @@ func reportSuccessViaDecode(w *World, r *Report, fn *ssa.Function) {
 		badS = "the body is never decoded into msg"
 	}
 	r.Check(badS == "", "R-SUCCESS", fname, w.Pos(fn.Pos()), badS, "the only nil-able error returned is the decode's own")
+}
+
+// reportWriteOrder (shared by C06 "one frame per call" and C07 "the first k bytes of the frame"): the only bytes Marshal
+// writes are the two results of marshal(), header first.
+func reportWriteOrder(w *World, r *Report, fn *ssa.Function) {
+	fname := "pbcmpl.Marshal"
+	r.Rule("R-ORDER", "Marshal writes the header bytes first and the body bytes second, to the same writer, the second write being dominated by the success edge of the first")
+	ios := streamCalls(fn, isParamStream(fn, 0))
+	bad := ""
+	if len(ios) != 2 {
+		bad = fmt.Sprintf("expected two writes (header, body), found %d", len(ios))
+	} else {
+		a0, a1 := ios[0].Call.Common().Args[0], ios[1].Call.Common().Args[0]
+		e0, ok0 := a0.(*ssa.Extract)
+		e1, ok1 := a1.(*ssa.Extract)
+		if !ok0 || !ok1 || e0.Tuple != e1.Tuple {
+			bad = "the two writes do not emit the two results of one marshal() call"
+		} else {
+			first, second := ios[0], ios[1]
+			if !instrDominates(first.Call, second.Call) {
+				first, second = second, first
+				e0, e1 = e1, e0
+			}
+			if e0.Index != 0 || e1.Index != 1 {
+				bad = fmt.Sprintf("write order is result #%d then #%d of marshal(); the frame is header (#0) then body (#1)", e0.Index, e1.Index)
+			}
+			errs := map[ssa.CallInstruction]ssa.Value{}
+			for _, es := range errorCalls(fn) {
+				errs[es.Call] = es.Err
+			}
+			if e := errs[first.Call]; e == nil || nilnessUnder(w.FA(fn).Conds(second.Call.Block()), e) != -1 {
+				bad = "the body is written even if the header write failed"
+			}
+		}
+	}
+	r.Check(bad == "", "R-ORDER", fname, w.Pos(fn.Pos()), bad, "w.Write(header) dominates w.Write(body) on its err==nil edge")
+}
+
+// reportMsgFinal: after the body has been decoded into msg, Unmarshal hands msg to nobody else.
+func reportMsgFinal(w *World, r *Report, fn *ssa.Function) {
+	r.Rule("R-MSGFINAL", "the message Unmarshal returns is exactly what the decode of the body produced: after proto.Unmarshal(body, msg) the destination message is not passed to any other call (a normalising / discarding / resetting call afterwards makes the result differ from the message that was marshalled)")
+	var decode *ssa.Call
+	eachInstr(fn, func(ins ssa.Instruction) {
+		if call, ok := ins.(*ssa.Call); ok && strings.HasSuffix(calleeName(call.Common()), "proto.Unmarshal") {
+			decode = call
+		}
+	})
+	if decode == nil || len(fn.Params) < 2 {
+		r.Unknown("R-MSGFINAL", "pbcmpl.Unmarshal", w.Pos(fn.Pos()), "no proto.Unmarshal call found")
+		return
+	}
+	fa := w.FA(fn)
+	bad := ""
+	msg := ssa.Value(fn.Params[1])
+	eachInstr(fn, func(ins ssa.Instruction) {
+		call, ok := ins.(ssa.CallInstruction)
+		if !ok || ins == ssa.Instruction(decode) {
+			return
+		}
+		if !(instrDominates(decode, ins) || fa.Reaches(decode.Block(), ins.Block()) && decode.Block() != ins.Block()) {
+			return
+		}
+		uses := false
+		for _, a := range allArgs(call.Common()) {
+			for _, v := range []ssa.Value{a} {
+				if v == msg {
+					uses = true
+				}
+				if mi, ok := v.(*ssa.MakeInterface); ok && mi.X == msg {
+					uses = true
+				}
+				if ci, ok := v.(*ssa.ChangeInterface); ok && ci.X == msg {
+					uses = true
+				}
+				if ta, ok := v.(*ssa.TypeAssert); ok && ta.X == msg {
+					uses = true
+				}
+			}
+		}
+		if call.Common().IsInvoke() && call.Common().Value == msg {
+			uses = true
+		}
+		if uses {
+			bad = fmt.Sprintf("%s receives the decoded message at %s, after the decode", calleeName(call.Common()), w.InstrPos(ins))
+		}
+	})
+	r.Check(bad == "", "R-MSGFINAL", "pbcmpl.Unmarshal", w.Pos(fn.Pos()), bad, "no call takes msg after proto.Unmarshal")
 }
